@@ -133,6 +133,12 @@ type Case struct {
 	ChildDetached bool `json:"childDetached,omitempty"`
 	// LingerMs: the plugin writes its complete output at once and then stays alive that long
 	LingerMs int `json:"lingerMs,omitempty"`
+	// UnreadStdin: the request is far larger than a pipe buffer (1 MiB), neither the plugin nor its
+	// descendant ever reads it, and the descendant keeps the request pipe open as well
+	UnreadStdin bool `json:"unreadStdin,omitempty"`
+	// BlankStdout / StdoutTail: after the stdout text the plugin writes that many blanks and then the tail
+	BlankStdout int64  `json:"blankStdout,omitempty"`
+	StdoutTail  string `json:"stdoutTail,omitempty"`
 
 	want any // the generated response struct (nil after a replay: then decoded from Reply)
 }
@@ -564,7 +570,8 @@ func prepare(c *Case) (*sandbox, error) {
 	}
 	b := map[string]any{"exit": c.Exit, "kill": c.Kill, "stdout": c.Stdout, "stderr": c.Stderr, "marker": sb.marker,
 		"padStdout": c.PadStdout, "padStderr": c.PadStderr, "padStdoutKey": c.PadStdoutKey, "padStderrKey": c.PadStderrKey,
-		"sleepMs": c.SleepMs, "childSleepMs": c.ChildSleepMs, "childPidFile": sb.pidFile, "childDetached": c.ChildDetached, "lingerMs": c.LingerMs}
+		"sleepMs": c.SleepMs, "childSleepMs": c.ChildSleepMs, "childPidFile": sb.pidFile, "childDetached": c.ChildDetached, "lingerMs": c.LingerMs,
+		"noStdin": c.UnreadStdin, "childHoldsStdin": c.UnreadStdin, "blankStdout": c.BlankStdout, "stdoutTail": c.StdoutTail}
 	script := map[string]any{c.Cmd: b}
 	if c.Cmd != "get-plugin-metadata" {
 		// should the host ever ask for the metadata before another command, it gets an honest answer
@@ -632,35 +639,39 @@ type result struct {
 	getErr  error         // error of NewCLIPlugin / CLIManager.Get
 }
 
-func request(cmd string) func(ctx context.Context, p pf.Plugin) (any, error) {
+func request(cmd string, big bool) func(ctx context.Context, p pf.Plugin) (any, error) {
+	filler := ""
+	if big {
+		filler = strings.Repeat("r", 1<<20)
+	}
 	switch cmd {
 	case "get-plugin-metadata":
 		return func(ctx context.Context, p pf.Plugin) (any, error) {
-			r, err := p.GetMetadata(ctx, &pf.GetMetadataRequest{PluginConfig: map[string]string{"a": "b"}})
+			r, err := p.GetMetadata(ctx, &pf.GetMetadataRequest{PluginConfig: map[string]string{"a": "b" + filler}})
 			return r, err
 		}
 	case "describe-key":
 		return func(ctx context.Context, p pf.Plugin) (any, error) {
-			r, err := p.DescribeKey(ctx, &pf.DescribeKeyRequest{KeyID: "key-1"})
+			r, err := p.DescribeKey(ctx, &pf.DescribeKeyRequest{KeyID: "key-1", PluginConfig: map[string]string{"a": filler}})
 			return r, err
 		}
 	case "generate-signature":
 		return func(ctx context.Context, p pf.Plugin) (any, error) {
 			r, err := p.GenerateSignature(ctx, &pf.GenerateSignatureRequest{ContractVersion: pf.ContractVersion, KeyID: "key-1",
-				KeySpec: pf.KeySpecEC256, Hash: pf.HashAlgorithmSHA256, Payload: []byte("payload")})
+				KeySpec: pf.KeySpecEC256, Hash: pf.HashAlgorithmSHA256, Payload: []byte("payload" + filler)})
 			return r, err
 		}
 	case "generate-envelope":
 		return func(ctx context.Context, p pf.Plugin) (any, error) {
 			r, err := p.GenerateEnvelope(ctx, &pf.GenerateEnvelopeRequest{KeyID: "key-1", PayloadType: "application/vnd.cncf.notary.payload.v1+json",
-				SignatureEnvelopeType: "application/jose+json", Payload: []byte(`{"targetArtifact":{}}`), ExpiryDurationInSeconds: 3600})
+				SignatureEnvelopeType: "application/jose+json", Payload: []byte(`{"targetArtifact":{}}`), ExpiryDurationInSeconds: 3600, PluginConfig: map[string]string{"a": filler}})
 			return r, err
 		}
 	case "verify-signature":
 		return func(ctx context.Context, p pf.Plugin) (any, error) {
 			r, err := p.VerifySignature(ctx, &pf.VerifySignatureRequest{ContractVersion: pf.ContractVersion,
 				Signature: pf.Signature{CriticalAttributes: pf.CriticalAttributes{ContentType: "application/vnd.cncf.notary.payload.v1+json", SigningScheme: "notary.x509"},
-					UnprocessedAttributes: []string{"x"}, CertificateChain: [][]byte{{0x30, 0x00}}},
+					UnprocessedAttributes: []string{"x" + filler}, CertificateChain: [][]byte{{0x30, 0x00}}},
 				TrustPolicy: pf.TrustPolicy{TrustedIdentities: []string{"*"}, SignatureVerification: []pf.Capability{pf.CapabilityTrustedIdentityVerifier}}})
 			return r, err
 		}
@@ -696,7 +707,7 @@ func (sb *sandbox) call(c *Case) *result {
 		os.WriteFile(filepath.Join(sb.dir, "behaviour.json"), sb.behaviour, 0o644)
 		os.Remove(sb.marker)
 	}
-	do := request(c.Cmd)
+	do := request(c.Cmd, c.UnreadStdin)
 	ctx, cancel := bg, context.CancelFunc(func() {})
 	var cancelledAt time.Time
 	var limit time.Duration // 0: unbounded, call on this goroutine
@@ -1006,7 +1017,7 @@ func judgeOutcome(c *Case, r *result) (string, string) {
 	et := errType(r.err)
 	overOut := strings.HasPrefix(c.Out, "overcap")
 	overErr := strings.HasPrefix(c.Err, "overcap")
-	killedByHost := c.Timing == "slow" || c.Timing == "cancel" || c.Timing == "descendant-slowparent" || c.Timing == "lingers" || c.Timing == "lingers-after-error"
+	killedByHost := c.Timing == "slow" || c.Timing == "cancel" || c.Timing == "descendant-slowparent" || c.Timing == "descendant-unread-stdin" || c.Timing == "lingers" || c.Timing == "lingers-after-error"
 	switch {
 	case killedByHost:
 		// the process never wrote a reply and was killed at the deadline / cancellation
@@ -1349,6 +1360,7 @@ func capCases(n int, seed uint64) []*Case {
 		{kind: "stderr-message", size: over, exit: 1},
 		{kind: "stdout-field", size: over, cmd: "describe-key"},
 		{kind: "stdout-ignored", size: huge},
+		{kind: "stdout-valid-prefix"},
 		// thorough only
 		{kind: "stderr-message", size: huge, exit: 2},
 		{kind: "stdout-ignored", size: cp + 1, exact: true, cmd: "generate-envelope"},
@@ -1388,6 +1400,11 @@ func capCases(n int, seed uint64) []*Case {
 			}
 		case "stdout-field":
 			c.Out, c.PadStdoutKey, c.PadStdout = "overcap-real-field", padKeyOf[c.Cmd], s.size
+		case "stdout-valid-prefix":
+			// the first <cap> bytes are the complete valid reply followed by blanks; what follows is not
+			// JSON and small enough to sit in a pipe buffer, so the plugin can still exit 0. A host that
+			// stops reading at the cap without noticing that there was more would take the prefix for the reply
+			c.Out, c.BlankStdout, c.StdoutTail = "overcap-valid-prefix", cp-int64(len(c.Stdout)), "XXXXXXXXXX"
 		case "stderr-message", "stderr-ignored":
 			c.Err, c.PadStderrKey, c.PadStderr = "overcap-message", "errorMessage", s.size
 			if s.kind == "stderr-ignored" {
@@ -1432,9 +1449,9 @@ func TestC17_Cap(t *testing.T) {
 		if shard, _ := stats.Shard(); shard != 0 {
 			t.Skip("over-cap cases run in shard 0 only")
 		}
-		n := 4
+		n := 5
 		if stats.Tier() == "thorough" {
-			n = 12
+			n = 13
 		}
 		cases = capCases(n, stats.Seed())
 	}
@@ -1471,7 +1488,7 @@ func TestC17_Cap(t *testing.T) {
 
 // timingCases enumerates the timing behaviours; details are generated.
 func timingCases(n int, seed uint64) []*Case {
-	kinds := []string{"descendant", "slow", "cancel", "descendant-slowparent", "nodeadline", "descendant-cancel", "descendant-failing", "lingers", "lingers-after-error"}
+	kinds := []string{"descendant", "slow", "cancel", "descendant-slowparent", "nodeadline", "descendant-cancel", "descendant-failing", "lingers", "lingers-after-error", "descendant-unread-stdin"}
 	var out []*Case
 	for i := 0; i < n; i++ {
 		kind := kinds[i%len(kinds)]
@@ -1494,6 +1511,8 @@ func timingCases(n int, seed uint64) []*Case {
 			c.Ctx, c.DeadlineMs, c.SleepMs, c.ChildSleepMs = "cancel", 0, 0, longSleepMs
 		case "descendant-slowparent": // plugin and descendant both outlive the deadline
 			c.Ctx, c.CancelMs, c.SleepMs, c.ChildSleepMs = "deadline", 0, longSleepMs, longSleepMs
+		case "descendant-unread-stdin": // a request larger than a pipe buffer that nobody reads; plugin and descendant outlive the deadline, the descendant holds all three pipes
+			c.Ctx, c.CancelMs, c.SleepMs, c.ChildSleepMs, c.UnreadStdin = "deadline", 0, longSleepMs, longSleepMs, true
 		case "lingers": // the complete valid reply is out at once, the process outlives the deadline and is killed: no successful exit
 			c.Ctx, c.CancelMs, c.SleepMs, c.LingerMs = "deadline", 0, 0, longSleepMs
 		case "lingers-after-error": // the plugin's complete structured error is out at once, then the process hangs and is killed
@@ -1525,7 +1544,7 @@ func TestC17_Timing(t *testing.T) {
 		}
 		cases = []*Case{&rc}
 	} else {
-		n := 9 // one case of every timing kind (cancellation without deadline + descendant included)
+		n := 10 // one case of every timing kind (cancellation without deadline + descendant included)
 		if stats.Tier() == "thorough" {
 			n = 60
 		}
